@@ -112,7 +112,7 @@ theorem step_spec (s : St) (hI : InvT s) (op : Op)
     simp only [step, Spec.stepF, hm, Bool.false_eq_true, if_false, hlen]
     by_cases hp : p ≤ s.size
     · rw [if_pos hp, if_pos hp]
-      obtain ⟨r, c, h1, h2⟩ := insertAt_map_state s hI hm p k v hp
+      obtain ⟨r, c, h1, h2, _⟩ := insertAt_map_state s hI hm p k v hp
       rw [h1]
       refine ⟨_, _, rfl, ?_, by simp [Op.retByTree]⟩
       rw [h2, insertRoot_abs s hI k v c, hm]; simp
